@@ -1363,6 +1363,70 @@ fn cases_of(world: &World, part: &Part) -> Vec<Case> {
     v
 }
 
+/// Sources whose pieces lie in two resources (the source side's and another side's): such a source is never covered by one
+/// side of the transposition, so the call must fail and change nothing - whatever part of it a single side would cover.
+fn foreign_piece_family(rep: &Reporter, tier: Tier, stats: &Stats) -> u64 {
+    let sp = WorldSpace { text0: "a\u{e9}cd", maxk: rep_tier_pick(tier, 1, 2), maxk3: 1, gaps: &[0, 1], gaps_k3: &[0], fillers: ('x', 'y') };
+    let ws = worlds(&sp);
+    let n = AtomicU64::new(0);
+    ws.par_iter().enumerate().for_each(|(wi, w)| {
+        for (fi, f0) in w.sides[0].frags.iter().enumerate() {
+            for simple_first in [true, false] {
+                for idless in [false, true] {
+                    n.fetch_add(1, Ordering::Relaxed);
+                    stats.cases.fetch_add(1, Ordering::Relaxed);
+                    let f1 = w.sides[1].frags[fi];
+                    let case = || json!({"foreign_piece": {"world": wi, "fragment": fi, "own_side_first": simple_first, "idless": idless, "simple": w.simple, "sides": w.sides.iter().map(|s| json!({"text": s.text, "frags": s.frags})).collect::<Vec<_>>()}});
+                    let class = format!("{}|{}|{}", if w.simple { "simple" } else { "complex" }, if simple_first { "own-side-piece-first" } else { "foreign-piece-first" }, if idless { "AnnNoId" } else { "AnnId" });
+                    let fail = |symptom: &str, detail: String| {
+                        rep.fail(&format!("foreign-piece|{}|{}", class, symptom), wi as u64, || format!("sides {:?}: source = [{} {:?}, {} {:?}]: {}", w.sides.iter().map(|s| (&s.text, &s.frags)).collect::<Vec<_>>(), rid(0), f0, rid(1), f1, detail), case);
+                    };
+                    let mut store = match catch(|| build_store(w)) {
+                        Ok(Ok(s)) => s,
+                        _ => continue,
+                    };
+                    let parts = if simple_first { vec![tsel_builder(&rid(0), *f0), tsel_builder(&rid(1), f1)] } else { vec![tsel_builder(&rid(1), f1), tsel_builder(&rid(0), *f0)] };
+                    let mut b = AnnotationBuilder::new().with_target(SelectorBuilder::DirectionalSelector(parts));
+                    if !idless {
+                        b = b.with_id("src");
+                    }
+                    let h = match catch(|| store.annotate(b)) {
+                        Ok(Ok(h)) => h,
+                        _ => continue,
+                    };
+                    let dump0 = store.verif_dump();
+                    let tc = TransposeConfig { transposition_id: Some("NT".to_string()), resegmentation_id: Some("NR".to_string()), target_side_ids: vec!["T0".to_string(), "T1".to_string()], ..Default::default() };
+                    let res = {
+                        let st = &store;
+                        let via = st.annotation("VIA").expect("VIA");
+                        let src = st.annotation(h).expect("source");
+                        catch(|| src.transpose(&via, tc).map(|b| b.len()))
+                    };
+                    stats.calls.fetch_add(1, Ordering::Relaxed);
+                    match res {
+                        Err(p) => fail(&format!("panic:{}", panic_code(&p)), format!("transpose panicked: {}", p)),
+                        Ok(Ok(nb)) => fail("accepted", format!("transpose returned Ok with {} builders although one piece of the source lies in another resource than the rest", nb)),
+                        Ok(Err(_)) => {
+                            stats.rejected.fetch_add(1, Ordering::Relaxed);
+                            if store.verif_dump() != dump0 {
+                                fail("rejected-but-store-changed", "the store dump differs after the refused call".into());
+                            }
+                        }
+                    }
+                }
+            }
+        }
+    });
+    n.load(Ordering::Relaxed)
+}
+
+fn rep_tier_pick(tier: Tier, q: usize, t: usize) -> usize {
+    match tier {
+        Tier::Quick => q,
+        Tier::Thorough => t,
+    }
+}
+
 pub fn run(rep: &Reporter) -> Coverage {
     let stats = Stats {
         cases: AtomicU64::new(0),
@@ -1412,13 +1476,15 @@ pub fn run(rep: &Reporter) -> Coverage {
             stats.failing.load(Ordering::Relaxed)
         );
     }
+    let nforeign = foreign_piece_family(rep, rep.tier, &stats);
+    space.push(json!({"part": "foreign-piece", "cases": nforeign, "what": "source annotation = one fragment of side 0 + the corresponding fragment of side 1 (another resource), either order, with and without id"}));
     let mut cov = Coverage::default();
     cov.states = stats.cases.load(Ordering::Relaxed);
     cov.transitions = stats.calls.load(Ordering::Relaxed);
     cov.evaluations = cov.transitions;
     cov.traces_validated = cov.states;
     cov.distinct_nontrivial = stats.ok_path.load(Ordering::Relaxed);
-    cov.rule = "world = source text x every set of 1..k pairwise disjoint non-empty fragments x every listing order x every positional order of the fragments in the second text x gap width (filler characters around the fragments) x {2,3} sides x {simple (k=1), complex}; case = world x source side x every range [b,e) of that side's text (side 0 also: every ordered pair of distinct non-empty ranges) x configuration (form of the source x allow_simple x no_transposition x no_resegmentation x source_side mode); states = cases, transitions = calls of transpose / annotate_from_iter (including those made while minimising failing cases); non-trivial = cases in which transpose returned Ok on a source that the oracle does not call uncovered, so that the resource / piecewise text / offset / identical-sides obligations were evaluated on the stored result (and, when these hold, the back-transposition)".into();
+    cov.rule = "world = source text x every set of 1..k pairwise disjoint non-empty fragments x every listing order x every positional order of the fragments in the second text x gap width (filler characters around the fragments) x {2,3} sides x {simple (k=1), complex}; case = world x source side x every range [b,e) of that side's text (side 0 also: every ordered pair of distinct non-empty ranges) x configuration (form of the source x allow_simple x no_transposition x no_resegmentation x source_side mode); foreign-piece family: a source annotation made of one fragment of side 0 and the corresponding fragment of side 1 (two resources) must be refused and leave the store unchanged; states = cases, transitions = calls of transpose / annotate_from_iter (including those made while minimising failing cases); non-trivial = cases in which transpose returned Ok on a source that the oracle does not call uncovered, so that the resource / piecewise text / offset / identical-sides obligations were evaluated on the stored result (and, when these hold, the back-transposition)".into();
     cov.samples = samples;
     cov.exhaustive = true;
     cov.extra.insert("space".into(), Value::Array(space));
@@ -1440,6 +1506,12 @@ pub fn run(rep: &Reporter) -> Coverage {
 
 /// Re-execute one recorded case without the sweep.
 pub fn replay(rep: &Reporter, case: &Value) {
+    if case.get("foreign_piece").is_some() {
+        println!("replay C16 foreign-piece family: {}", case["foreign_piece"]);
+        let stats = Stats { cases: AtomicU64::new(0), calls: AtomicU64::new(0), ok_path: AtomicU64::new(0), rejected: AtomicU64::new(0), failing: AtomicU64::new(0) };
+        foreign_piece_family(rep, rep.tier, &stats);
+        return;
+    }
     let case = match Case::from_json(case) {
         Some(c) => c,
         None => {
